@@ -65,6 +65,10 @@ type DeadlineRec struct {
 	At   time.Duration
 	Kind string // "rw", "r", "w"
 	T    time.Time
+	// ReadsBefore / WritesBefore: how many Read / Write calls the connection
+	// had seen when the deadline was set.
+	ReadsBefore  int
+	WritesBefore int
 }
 
 // Pipe is one direction of a link.
@@ -633,7 +637,7 @@ func (c *Conn) SetDeadline(t time.Time) error {
 	if c.closed {
 		return closedErr("set")
 	}
-	c.Deadlines = append(c.Deadlines, DeadlineRec{At: s.Now(), Kind: "rw", T: t})
+	c.Deadlines = append(c.Deadlines, DeadlineRec{At: s.Now(), Kind: "rw", T: t, ReadsBefore: c.ReadCalls, WritesBefore: len(c.Writes)})
 	c.setR(t)
 	c.setW(t)
 	return nil
@@ -646,7 +650,7 @@ func (c *Conn) SetReadDeadline(t time.Time) error {
 	if c.closed {
 		return closedErr("set")
 	}
-	c.Deadlines = append(c.Deadlines, DeadlineRec{At: s.Now(), Kind: "r", T: t})
+	c.Deadlines = append(c.Deadlines, DeadlineRec{At: s.Now(), Kind: "r", T: t, ReadsBefore: c.ReadCalls, WritesBefore: len(c.Writes)})
 	c.setR(t)
 	return nil
 }
@@ -658,7 +662,7 @@ func (c *Conn) SetWriteDeadline(t time.Time) error {
 	if c.closed {
 		return closedErr("set")
 	}
-	c.Deadlines = append(c.Deadlines, DeadlineRec{At: s.Now(), Kind: "w", T: t})
+	c.Deadlines = append(c.Deadlines, DeadlineRec{At: s.Now(), Kind: "w", T: t, ReadsBefore: c.ReadCalls, WritesBefore: len(c.Writes)})
 	c.setW(t)
 	return nil
 }
